@@ -363,9 +363,18 @@ func (rd *renderer) attrVal(v string) {
 	}
 }
 
+// PIMark is a private-use character that the renderer writes as a processing
+// instruction inside character data; it is not part of the value (see StripMarks).
+const PIMark = "\uE000"
+
+// StripMarks removes renderer marks from a value (its information content).
+func StripMarks(s string) string { return strings.ReplaceAll(s, PIMark, "") }
+
 func escText(b *strings.Builder, s string) {
 	for _, r := range s {
 		switch r {
+		case '\uE000':
+			b.WriteString("<?x y?>")
 		case '<':
 			b.WriteString("&lt;")
 		case '&':
